@@ -158,6 +158,8 @@ def setup(lib, spec, shift):
     elif integ == "bs":
         sim.ri_bs.eps_rel = 1e-12
         sim.ri_bs.eps_abs = 1e-12
+    if spec.get("softening"):
+        sim.softening = spec["softening"]
     sys_ = spec["system"]
     sim.add(m=sys_["star_m"])
     for pl in sys_["planets"]:
@@ -440,7 +442,46 @@ def check_multiset(lib, spec):
     return not bad, {"failing_sets": bad[:3], "n_sets": len(subs)}
 
 
-CHECKS = {"constructor": check_constructor, "trajectory": check_trajectory, "rescale": check_rescale, "megno": check_megno, "megno_order": check_megno_order, "python_vary": check_python_vary, "multiset": check_multiset}
+def check_softening(lib, spec):
+    """first-order variation vs finite difference with a softened force"""
+    sp = {"integrator": "ias15", "system": spec["system"], "x": spec["x"], "order": 1, "index": 1, "softening": spec["softening"]}
+    return check_trajectory(lib, sp)
+
+
+def check_rescale_mass(lib, spec):
+    """a set with a mass variation, multiplied by `big`: exp(lrescale) * (x, v, m) / big must equal the factor-1 run"""
+    rb = lib.rb
+    out = []
+    for big in (1.0, spec["big"]):
+        sim = rb.Simulation()
+        sim.integrator = spec["integrator"]
+        if spec["integrator"] == "leapfrog":
+            sim.dt = 0.01
+        sim.add(m=1.)
+        sim.add(m=1e-3, a=1., e=0.1)
+        sim.add(m=1e-3, a=1.8, e=0.05, f=1.)
+        v = sim.add_variation()
+        v.vary(1, "m")
+        for p in v.particles:
+            for c in ["m"] + C6:
+                setattr(p, c, getattr(p, c) * big)
+        sim.integrate(spec["tmax"], exact_finish_time=0)
+        out.append(([v.particles[1].m] + vec(v.particles[1]) + vec(v.particles[2]), v.lrescale))
+    (ref, l0), (got, l1) = out
+    lb = math.log(spec["big"])
+    scale = max(abs(r) for r in ref)
+    worst = 0.0
+    for g, r in zip(got, ref):
+        e = l1 - lb + (math.log(abs(g)) if g not in (0.0,) and g == g and abs(g) != float("inf") else 0.0)
+        val = math.copysign(math.exp(e), g) if (g == g and abs(g) != float("inf") and e < 700) else float("inf")
+        if g == 0.0:
+            val = 0.0
+        worst = max(worst, abs(val - r))
+    ok = worst <= 1e-8 * scale
+    return ok, {"lrescale_big": l1, "worst_product_error": worst, "scale": scale}
+
+
+CHECKS = {"constructor": check_constructor, "trajectory": check_trajectory, "rescale": check_rescale, "megno": check_megno, "megno_order": check_megno_order, "python_vary": check_python_vary, "multiset": check_multiset, "softening": check_softening, "rescale_mass": check_rescale_mass}
 
 
 def pairs_available(lib):
@@ -555,6 +596,22 @@ def search(ctx, rebound, libdir):
         ctx.violation("move_to_hel_ignores_variations", {"check": "multiset", "spec": spec, "detail": det}, True,
                       "reb_simulation_move_to_hel does not move the variational particles: after it they are no longer the "
                       "derivative of the (shifted) state when the variation of particle 0 is non-zero")
+
+    # open findings probed under stable keys: softened force, rescaling of a set with a mass variation
+    for key, kind, spec, what in (
+        ("var_gravity_ignores_softening", "softening", {"system": base_system(rng), "x": rng.choice(C6), "softening": rng.uniform(0.05, 0.3)},
+         "with softening != 0 the variational particles are not the derivative of the trajectory (variational gravity ignores softening)"),
+        ("rescale_ignores_variational_mass", "rescale_mass", {"integrator": rng.choice(["ias15", "leapfrog"]), "big": 10 ** rng.uniform(99.2, 99.9), "tmax": rng.uniform(30, 60)},
+         "rescaling a set with a mass variation changes the represented tangent vector (the variational mass is not rescaled)")):
+        try:
+            ok, det = CHECKS[kind](lib, spec)
+        except Inconclusive:
+            ok, det = True, {}
+        except Exception as e:
+            ok, det = False, {"exception": repr(e)}
+        ctx.case(key=(kind,))
+        if not ok:
+            ctx.violation(key, {"check": kind, "spec": spec, "detail": det}, True, what)
 
     # (c) rescaling and chaos indicators
     for integ, sm in (("ias15", None), ("whfast", 1), ("whfast", 0), ("leapfrog", None)):
